@@ -427,6 +427,10 @@ typedef struct {
 	int max_depth;				/* 0 = run to a fixpoint */
 	uint64_t max_states;			/* 0 = unlimited */
 	const char *name;			/* configuration name, goes into replay files */
+	void (*save)(void *dst);		/* optional: gather the live state into `size` bytes */
+	void (*load)(const void *src);		/* optional: scatter it back */
+	void (*on_new)(int depth);		/* optional: called on every newly found state (live), e.g. a frontier probe;
+						 * must leave the live state as it found it */
 	/* results */
 	uint64_t states, transitions, disabled; int depth_done, fixpoint, capped;
 	/* internals */
@@ -465,13 +469,14 @@ static void vx_bfs_fail(const char *clause, const char *fmt, ...)
 
 static void vx_bfs_run(vx_bfs *b)
 {
-	uint8_t *save = malloc(b->size);
+	uint8_t *save = malloc(b->size), *tmp = malloc(b->size);
 	vx_hasher h;
 	vx_bfs_cur = b;
 	vx_store_init(&b->st, b->size);
 	vx_set_init(&b->seen, 16);
 	vx_h_init(&h); b->canon(&h); vx_set_add(&b->seen, vx_h_done(&h));
-	vx_store_add(&b->st, b->live, VX_NOPARENT, 0, 0);
+	if (b->save) { b->save(save); vx_store_add(&b->st, save, VX_NOPARENT, 0, 0); }
+	else vx_store_add(&b->st, b->live, VX_NOPARENT, 0, 0);
 	b->states = 1; b->transitions = 0; b->fixpoint = 0; b->capped = 0; b->depth_done = 0;
 	int last_depth = 0;
 	for (b->cur = 0; b->cur < b->st.n; b->cur++) {
@@ -483,21 +488,23 @@ static void vx_bfs_run(vx_bfs *b)
 		if (vx_too_many_violations()) { b->capped = 1; break; }
 		vx_store_get(&b->st, b->cur, save);
 		for (int op = 0; op < b->nops; op++) {
-			memcpy(b->live, save, b->size);
+			if (b->load) b->load(save); else memcpy(b->live, save, b->size);
 			if (!b->enabled(op)) { b->disabled++; continue; }
 			b->cur_op = op;
 			b->transitions++;
 			if (b->apply(op)) continue;
 			vx_h_init(&h); b->canon(&h);
 			if (vx_set_add(&b->seen, vx_h_done(&h))) {
-				vx_store_add(&b->st, b->live, (uint32_t)b->cur, (uint32_t)op, (unsigned)d + 1);
+				if (b->save) { b->save(tmp); vx_store_add(&b->st, tmp, (uint32_t)b->cur, (uint32_t)op, (unsigned)d + 1); }
+				else vx_store_add(&b->st, b->live, (uint32_t)b->cur, (uint32_t)op, (unsigned)d + 1);
 				b->states++;
+				if (b->on_new) b->on_new(d + 1);
 			}
 		}
 	}
 	if (b->cur >= b->st.n && !b->capped) { b->fixpoint = 1; b->depth_done = last_depth + 1; }
 	else if (!b->capped) b->depth_done = b->max_depth;
-	free(save);
+	free(save); free(tmp);
 }
 static void vx_bfs_free(vx_bfs *b) { vx_store_free(&b->st); vx_set_free(&b->seen); }
 
@@ -508,8 +515,8 @@ static int vx_bfs_replay(vx_bfs *b, const char *text)
 	if (!p) return -1;
 	p += 4;
 	vx_bfs_cur = b;
-	vx_store_init(&b->st, b->size);
-	vx_store_add(&b->st, b->live, VX_NOPARENT, 0, 0);
+	vx_store_init(&b->st, 1);
+	vx_store_add(&b->st, "", VX_NOPARENT, 0, 0);
 	b->cur = 0;
 	for (;;) {
 		while (*p == ' ') p++;
@@ -519,7 +526,7 @@ static int vx_bfs_replay(vx_bfs *b, const char *text)
 		b->cur_op = op;
 		int r = b->apply(op);
 		if (r) return 1;
-		b->cur = vx_store_add(&b->st, b->live, (uint32_t)b->cur, (uint32_t)op, 0);
+		b->cur = vx_store_add(&b->st, "", (uint32_t)b->cur, (uint32_t)op, 0);
 	}
 	return 0;
 }
